@@ -68,6 +68,20 @@ func (c16sDetached) Done() <-chan struct{}       { return nil }
 func (c16sDetached) Err() error                  { return nil }
 func (c c16sDetached) Value(k any) any           { return c.inner.Value(k) }
 
+// c16sScribble overwrites a variadic argument slice after the call it was passed to has returned: with contexts that
+// are already cancelled and with nil, alternately.
+func c16sScribble(cs []context.Context) {
+	dead, cancel := context.WithCancel(context.Background())
+	cancel()
+	for i := range cs {
+		if i%2 == 0 {
+			cs[i] = dead
+		} else {
+			cs[i] = nil
+		}
+	}
+}
+
 //go:noinline
 func c16sDoneOnly(primary, other context.Context) <-chan struct{} {
 	return bigbuff.CombineContext(primary, nil, other).Done()
@@ -156,6 +170,7 @@ func TestC16Static(t *testing.T) {
 			}
 			trace = append(trace, fmt.Sprintf("combine(primary=%d others=%v)", primary, otherIdx))
 			res := bigbuff.CombineContext(pctx, others...)
+			c16sScribble(others) // the argument slice is the caller's again once the call has returned
 			if res == nil {
 				vkit.Fail(t, "C16/combine-nil-result", "CombineContext returned nil\ncase: %v", trace)
 			}
@@ -259,6 +274,7 @@ func TestC16Static(t *testing.T) {
 			}
 			trace = append(trace, "conflated(all inputs)")
 			res, cancel := bigbuff.ConflatedContext(args...)
+			c16sScribble(args)
 			if res == nil || cancel == nil {
 				vkit.Fail(t, "C16/conflated-nil-result", "ConflatedContext returned nil\ncase: %v", trace)
 			}
